@@ -183,6 +183,12 @@ def run(ctx):
         c10.s2m_rules(d10, fs2)
     if fm2 is not None:
         c10.m2s_rules(d10, fm2)
+    # ... and for every subcommand: one worker per thread, also for one thread
+    for path_, who_, tag_ in ((c07.CHUNK, "count_chunk", "C07"), (c05.MMAP, "vectorise_mmap", "C05"),
+                              (c10.S2M, "seq_to_min", "C10"), (c10.M2S, "bin_sequences", "C10")):
+        fw_ = ctx.view(path_)
+        if fw_ is not None:
+            rule_spawn_count(dep(ctx, "C15", tag_), tag_ + ".L", fw_, who_)
 
 
 # ---------------------------------------------------------------- R
@@ -281,12 +287,14 @@ def fmt_range(r):
 
 # ---------------------------------------------------------------- P
 
-def preset_rule(ctx, fv):
+def preset_rule(ctx, fv, arms=None):
     n_tables = 0
     for m in fv.nodes:
         if m.get("k") != "match" or m["e"].get("k") != "field" or m["e"]["name"] != "preset":
             continue
         arm = arm_of(fv.term(m["e"]))
+        if arms is not None and arm not in arms:
+            continue
         got = {}
         for a in m["arms"]:
             variant = norm_path(a["pat"].get("path", "")).split("::")[-1]
@@ -321,6 +329,8 @@ def preset_rule(ctx, fv):
             at = fv.term(c["args"][0])
             if at[0] == "call" and at[1].startswith("kmertools::args::") and len(at) == 3 and at[2][0] == "field" and at[2][2] == "preset":
                 arm = arm_of(at[2])
+                if arms is not None and arm not in arms:
+                    continue
                 hv = ctx.view(at[1], UNIT)
                 if hv is None or arm is None:
                     continue
@@ -363,6 +373,8 @@ def preset_rule(ctx, fv):
             if not (st[0] == "field" and st[2] == "preset"):
                 continue
             arm = arm_of(st)
+            if arms is not None and arm not in arms:
+                continue
             got = {}
             for ar in a["arms"]:
                 variant = norm_path(ar["pat"].get("path", "")).split("::")[-1]
@@ -377,7 +389,7 @@ def preset_rule(ctx, fv):
             extra = set(got) - set(PRESETS)
             if extra:
                 ctx.fail("C15.P", "%s:preset_extra" % arm, "unexpected preset arms %s" % sorted(extra), line_of(c))
-    if n_tables < 3:
+    if n_tables < (3 if arms is None else 1):
         ctx.fail("C15.P", "presets:floor", "expected 3 preset dispatch tables (oligo, cov, min), found %d" % n_tables, fv.fn["sp"])
 
 
@@ -792,12 +804,14 @@ def closed_list_rule(ctx, fv):
 
 
 
-def cli_arm_dep(ctx, prop, arms):
+def cli_arm_dep(ctx, prop, arms, presets=False):
     """the CLI is an observation point of most properties: the options of the named subcommand arm(s) reach the
     computation's constructor and setters as documented (re-checked under the depending property's ids)"""
     fcli = ctx.view(CLI, UNIT)
     if fcli is not None:
         flow_rule(dep(ctx, prop, "C15"), fcli, arms=arms)
+        if presets:
+            preset_rule(dep(ctx, prop, "C15"), fcli, arms=arms)
     setters_rule(dep(ctx, prop, "C15"), arms)
 
 
